@@ -545,6 +545,37 @@ func judge(r *mon.Rec, a *acc, v []byte, via string) {
 		}
 	}
 	fillHeader(p)
+	// "for any packet": the packet carries other options too (well-formed, malformed, empty), among them the ones whose
+	// meaning overlaps with the accessor's (routers and classless routes, host name and domain, ...): an accessor reads
+	// its own option
+	companions := func(q *dhcpv4.DHCPv4) {
+		crng := rand.New(rand.NewPCG(uint64(len(v))*977+uint64(a.code), uint64(len(via))+uint64(func() int {
+			if len(v) > 0 {
+				return int(v[0])
+			}
+			return 0
+		}())))
+		if crng.IntN(3) == 0 {
+			return
+		}
+		for k := 0; k < 1+crng.IntN(4); k++ {
+			c := []byte{3, 121, 249, 1, 6, 15, 119, 12, 51, 58, 59, 54, 50, 53, 55, 82, 77, 124, 60, 66, 67, 43, 33, 28, 42, 44, 108, 116, 57, 93}[crng.IntN(30)]
+			if c == a.code {
+				continue
+			}
+			switch crng.IntN(4) {
+			case 0:
+				q.Options[c] = nil
+			case 1:
+				q.Options[c] = []byte{0, 1, 2, 3, 4, 5, 6, 7}[:1+crng.IntN(8)]
+			default:
+				q.Options[c] = []byte{10, 0, 0, byte(c), 255, 255, 255, 0, 24, 10, 1, 2, 10, 0, 0, 1}[:4*(1+crng.IntN(4))]
+			}
+		}
+	}
+	if via != "absent" || len(v) == 0 {
+		companions(p)
+	}
 	rp := replay{a.name, mon.Hex(v), via}
 	want := a.ref(v)
 	var got string
@@ -561,6 +592,7 @@ func judge(r *mon.Rec, a *acc, v []byte, via string) {
 		case "wire":
 			src := &dhcpv4.DHCPv4{Options: dhcpv4.Options{a.code: v}, ClientHWAddr: make([]byte, 6)}
 			fillHeader(src)
+			companions(src)
 			q, err := dhcpv4.FromBytes(src.ToBytes())
 			if err != nil {
 				panic("encode/decode failed: " + err.Error())
@@ -1041,6 +1073,31 @@ func setGet(r *mon.Rec, idx int) {
 	}
 	if g1 != want || g2 != want {
 		r.Violate("C17:setget:"+name, fmt.Sprintf("%s: set %s, read back %s (direct) / %s (after wire trip)", name, tr(want), tr(g1), tr(g2)), rp)
+		return
+	}
+	// a second packet shares the values' storage (a reply made with WithOptionCopied, a struct copy with a copied map);
+	// every option is set again in it, to a value of the same size: the first packet reads what was set in IT
+	var g3 string
+	pan, val, st = mon.Guard(func() {
+		sib := &dhcpv4.DHCPv4{Options: dhcpv4.Options{}}
+		for c, v := range p.Options {
+			sib.Options[c] = v
+		}
+		for c, v := range p.Options {
+			nv := make([]byte, len(v))
+			for i := range nv {
+				nv[i] = ^v[i]
+			}
+			sib.UpdateOption(dhcpv4.OptGeneric(dhcpv4.GenericOptionCode(c), nv))
+		}
+		g3 = get(p)
+	})
+	if pan {
+		r.Violate("C17:setget-panic:"+name+":"+mon.LibFrame(st), fmt.Sprint(val), rp)
+		return
+	}
+	if g3 != want {
+		r.Violate("C17:setget-shared:"+name, fmt.Sprintf("%s: set %s; after the same options were set again in ANOTHER packet that shares the values' storage, the first packet reads %s", name, tr(want), tr(g3)), rp)
 		return
 	}
 	r.Shape("setget/"+name+fmt.Sprint(len(want)/16), true)
